@@ -266,6 +266,10 @@ def rule_mx5(ctx: Ctx, heads_only=None) -> RuleResult:
             ok = False
             why = "return value is not rx.pipe(head, pipeline, demux_mux_observable(outer))"
             stages = None
+            if v[0] == "call" and v[1] == ("glob", "rx.pipe") and len(v[2]) == 1 and v[2][0][0] == "star" and v[2][0][1][0] in ("tuple", "list") \
+                    and not any(isinstance(x, tuple) and x and x[0] == "star" for x in v[2][0][1][1:]):
+                # rx.pipe(*stages) with stages a tuple / list display written in the factory: the display's elements are the stages
+                v = (v[0], v[1], tuple(v[2][0][1][1:])) + tuple(v[3:])
             if v[0] == "call" and v[1] == ("glob", "rx.pipe") and any(isinstance(x, tuple) and x and x[0] == "star" for x in v[2]):
                 raise AnalysisError("%s: %s composes its stages from a list built at run time (%s); MX-5 reads rx.pipe(head, pipeline, demux) and the "
                                     "written-out application only" % (m.where(fn), pub, show(v)[:80]))
@@ -622,6 +626,45 @@ def rule_wc2(ctx: Ctx) -> RuleResult:
     return r
 
 
+MUX_EVENT_CLASSES = ("OnNextMux", "OnCreateMux", "OnCompletedMux", "OnErrorMux", "ProbeStateTopology")
+
+
+def rule_mx9(ctx: Ctx) -> RuleResult:
+    """MX-9: mux events travel in MuxObservables only.  Every dual-mode operator chooses its implementation with
+    isinstance(source, MuxObservable): an operator that handles mux events (it tells OnNextMux / OnCreateMux / ... apart) and sends
+    them on through rx.create hands its successor a plain Observable of event tuples -- the successor takes its plain arm and applies
+    the user's function to the events themselves.  Only the demultiplexer turns a mux stream into a plain one, and it emits items."""
+    r = RuleResult("MX-9", "an operator that tells mux events apart and sends events on builds a MuxObservable (rx.create only where items leave the mux "
+                           "stream: demultiplex)")
+    for site in ctx.all_sites:
+        rel = site.anchor_rel
+        if ctx.scope is not None and rel not in ctx.scope:
+            continue
+        for spec in site.handler_specs("on_next"):
+            fn, ev = spec.fn, spec.event_param
+            tests = [n for n in ast.walk(fn) if isinstance(n, (ast.Attribute, ast.Name)) and (n.attr if isinstance(n, ast.Attribute) else n.id) in MUX_EVENT_CLASSES]
+            if not tests:
+                continue
+            r.instances += 1
+            if site.ctor != "create":
+                r.ob(True)
+                continue
+            sent = []
+            for c in ast.walk(fn):
+                if isinstance(c, ast.Call) and isinstance(c.func, ast.Attribute) and c.func.attr == "on_next" and c.args:
+                    a = c.args[0]
+                    if (isinstance(a, ast.Name) and a.id == ev) or (isinstance(a, ast.Call) and (
+                            (isinstance(a.func, ast.Attribute) and a.func.attr == "_replace") or (dotted_name(a.func) or "").split(".")[-1] in MUX_EVENT_CLASSES)):
+                        sent.append(c)
+            r.ob(not sent, lambda sent=sent, site=site, spec=spec: Finding(
+                "MX-9", "%s{plain-observable-of-events}" % site.name, site.where(),
+                "%s tells mux events apart (%s ...) and sends events on (%s) but builds its result with rx.create: what follows it sees a plain "
+                "Observable, takes its plain arm (isinstance(source, MuxObservable) is False) and treats the event tuples as items" % (
+                    spec.qualname, ast.unparse(tests[0]) if tests else "", ast.unparse(sent[0])[:50])))
+    r.require_instances(ctx.scaled(20))
+    return r
+
+
 def _lv(ctx):
     from .lv import rule_lv
     return rule_lv(ctx)
@@ -675,4 +718,4 @@ def rule_ev1(ctx: Ctx) -> RuleResult:
     return r
 
 
-RULES = [rule_ev1, rule_mx_flat, _lv, rule_mx5, rule_mx6, rule_mx7, rule_mx8, rule_wc2]
+RULES = [rule_ev1, rule_mx_flat, _lv, rule_mx5, rule_mx6, rule_mx7, rule_mx8, rule_wc2, rule_mx9]
